@@ -62,9 +62,9 @@ OWN_FAMILIES = [("own_sa_int", "sa"), ("own_sa_dyadic", "sa"), ("own_additive", 
 # inner environment, not against the model)
 SNAP_FIELDS = {"C09": ["mask", "state", "r", "done", "steps", "K", "L", "U"],
                "C13": ["mask", "r", "steps", "K", "L", "U"],
-               "C08": ["mask", "r", "steps", "K", "L", "U"],
+               "C08": ["mask", "r", "steps", "K", "L", "U"], "C07": ["mask", "r", "steps", "K", "L", "U"],
                "C16": ["mask", "state", "r", "steps", "K", "L", "U"]}
-STEP_FIELDS = {"C09": ["obs", "r", "done", "c"], "C13": ["r", "c"], "C08": ["r", "c"], "C16": ["obs", "r", "c"]}
+STEP_FIELDS = {"C09": ["obs", "r", "done", "c"], "C13": ["r", "c"], "C08": ["r", "c"], "C07": ["r", "c"], "C16": ["obs", "r", "c"]}
 
 _MODS: dict = {}
 
@@ -436,9 +436,31 @@ class Case:
         valid = c is not None and ((c in self.revealed) if un else (c not in self.revealed)) and 0 <= a
         if c is not None:
             self.register((self.known() - {c}) if un else (self.known() | {c}))
+        before_c07 = None
+        if self.prop == "C07" and valid and not un:
+            ig0 = env.incomplete_game
+            try:
+                before_c07 = (fl(ig0.get_lower_bounds()), fl(ig0.get_upper_bounds()), float(env.reward))
+            except Exception:       # noqa: BLE001
+                before_c07 = None
         try:
             out = (env.unstep if un else env.step)(a)
             ans = self.show_out(out)
+            if before_c07 is not None:
+                # C07 on the environment: whatever happened before (un-reveals in any order included), revealing a true value
+                # widens no interval and lowers no reward (= raises no gap)
+                ig1 = env.incomplete_game
+                L1, U1, r1 = fl(ig1.get_lower_bounds()), fl(ig1.get_upper_bounds()), float(out[1])
+                L0, U0, r0 = before_c07
+                tol = 1e-9 * max(1.0, abs(r0))
+                # hidden games of the repo's float families are superadditive only up to rounding: nesting is demanded up to
+                # 1e-9 of the value scale (exact families have slack 0 anyway)
+                slack = 1e-9 * max(1.0, max(abs(x) for x in self.cur.vals))
+                if any(x1 < x0 - slack for x0, x1 in zip(L0, L1)) or any(x1 > x0 + slack for x0, x1 in zip(U0, U1)):
+                    self.violate(f"revealing coalition {c} widened an interval in the environment", "env-widening", {"action": a})
+                elif r1 < r0 - tol:
+                    self.violate(f"revealing coalition {c} increased the gap in the environment ({-r0} -> {-r1})", "env-gap-increase",
+                                 {"action": a})
             if un:
                 self.revealed.discard(c)
                 self.steps -= 1
@@ -842,7 +864,7 @@ def run(tier: str, budget: Budget, rnd, arg: str) -> StreamResult:
             # numpy's float sums of normalised values round unless the values are short dyadics (family own_pow2)
             approx = linear and not all(Fraction(x).denominator <= 2 ** 20 and abs(x) < 2 ** 20 for h in hs for x in h.norm)
             res.count(f"linear-observation:{'tolerance' if approx else 'exact'}" if linear else "exact-protocol")
-            c = Case(res, script, f"c{cid}", n, comp, gap, bud, init, hs, arg if arg != "C08env" else "C08", kind,
+            c = Case(res, script, f"c{cid}", n, comp, gap, bud, init, hs, {"C08env": "C08", "C07env": "C07"}.get(arg, arg), kind,
                      linear=linear, np_seed=(rnd.randrange(2 ** 31) if linear else None), approx_lin=approx, **kw)
             if res.samples is not None and len(res.samples) < 3:
                 res.sample({"n": n, "family": fam, "computer": comp, "gap": gap, "budget": bud, "initial": init,
@@ -854,8 +876,8 @@ def run(tier: str, budget: Budget, rnd, arg: str) -> StreamResult:
         script.add(f"env drop {c.name}", "ok")
 
     hows3 = ["minimal", "minimal", "no_empty_grand", "extra", "dup"]
-    if arg in ("C09", "C13", "C08env"):
-        solver_every, undo_every = arg == "C13", arg == "C08env"
+    if arg in ("C09", "C13", "C08env", "C07env"):
+        solver_every, undo_every = arg == "C13", arg in ("C08env", "C07env")
         asym = (lambda f, k: f not in ("own_additive", "k_budget_generator", "factory", "factory_square", "predictible_factory")) if arg == "C13" else None
         # n = 3: every sequence
         rounds3 = (3 * len(fams) if quick else 12 * len(fams))
@@ -884,7 +906,7 @@ def run(tier: str, budget: Budget, rnd, arg: str) -> StreamResult:
                 continue
             L = 14 if n == 4 else 10
             kwargs = dict(malformed=(0.12 if arg == "C09" else 0.0), solver_p=(0.35 if arg == "C13" else 0.0),
-                          undo_p=(0.45 if arg == "C08env" else 0.0), budget=gen_budget)
+                          undo_p=(0.45 if arg in ("C08env", "C07env") else 0.0), budget=gen_budget)
             if i % 4 == 1:
                 # two live environments of the same player count, different hidden games, operated alternately: state that
                 # leaks between environment objects (class-level caches, shared game objects) shows only here
